@@ -126,8 +126,8 @@ Qed.
 Lemma ext_weaken : forall (X : perm) m m', ext noX m m' -> ext X m m'.
 Proof.
   intros X m m' [h l v k f i d e]. constructor; auto.
-  - intros id t _ H. apply k; [intros []|exact H].
-  - intros k0 Hp H. destruct (f k0 Hp H) as [H'|[]]. left. exact H'.
+  all: try (intros id t _ H; apply k; [intros C; exact C|exact H]).
+  all: try (intros k0 Hp H; destruct (f k0 Hp H) as [H'|H']; [left; exact H'|destruct H']).
 Qed.
 
 (* a command that returns, as seen from a state with nothing leaked *)
@@ -199,7 +199,7 @@ Lemma sfo_update_nohave : forall X s id a,
   store_fun_ok X s (set_store s (update id (Req a) (store s))).
 Proof.
   intros X s id a Hno. repeat split; cbn [set_store leaked insts finished store].
-  - intros K j t Hj. rewrite lookup_update in Hj. destruct (id =? j); [discriminate|]. apply K, Hj.
+  - intros K j t Hj. cbn [set_store store] in Hj. rewrite lookup_update in Hj. destruct (id =? j); [discriminate|]. apply K, Hj.
   - intros j t Hj. rewrite lookup_update. destruct (id =? j) eqn:E.
     + apply Nat.eqb_eq in E; subst j. exfalso. eapply Hno, Hj.
     + eauto.
@@ -213,7 +213,7 @@ Lemma sfo_delete_nohave : forall X s id,
   store_fun_ok X s (set_store s (delete id (store s))).
 Proof.
   intros X s id Hno. repeat split; cbn [set_store leaked insts finished store].
-  - intros K j t Hj. rewrite lookup_delete in Hj. destruct (id =? j); [discriminate|]. apply K, Hj.
+  - intros K j t Hj. cbn [set_store store] in Hj. rewrite lookup_delete in Hj. destruct (id =? j); [discriminate|]. apply K, Hj.
   - intros j t Hj. rewrite lookup_delete. destruct (id =? j) eqn:E.
     + apply Nat.eqb_eq in E; subst j. exfalso. eapply Hno, Hj.
     + eauto.
@@ -229,7 +229,7 @@ Lemma sfo_put_tree : forall (X : perm) s t,
   store_fun_ok X s (put_tree t s).
 Proof.
   intros X s t Hx. unfold put_tree. repeat split; cbn [set_store set_removal leaked insts finished store].
-  - intros K j t0 Hj. rewrite lookup_update in Hj. destruct (t_id t =? j) eqn:E.
+  - intros K j t0 Hj. cbn [set_store set_removal store] in Hj. rewrite lookup_update in Hj. destruct (t_id t =? j) eqn:E.
     + inversion Hj; subst t0. apply Nat.eqb_eq, E.
     + apply K, Hj.
   - intros j t0 Hj. rewrite lookup_update. destruct (t_id t =? j) eqn:E; eauto.
@@ -364,21 +364,25 @@ Proof. intros. exists a, m. split; [reflexivity|]. split; [apply ext_refl|auto].
 Lemma get_returns : forall X m, returns X get m (fun r m' => r = os m /\ m' = m).
 Proof. intros. exists (os m), m. split; [reflexivity|]. split; [apply ext_refl|auto]. Qed.
 
-(* a change of the tables that leaves the store alone and only lists instances whose tree is stored *)
-Definition frame_ok (s s' : ostate) : Prop :=
+(* a change of the tables that leaves the store alone, only lists instances whose tree is
+   stored, and only marks finished what the procedure may (or tokens of unknown protocols) *)
+Definition frame_ok (X : perm) (s s' : ostate) : Prop :=
   leaked s' = leaked s /\ store s' = store s /\
-  (forall k, In k (insts s') -> In k (insts s) \/ exists t, lookup (tk_tree k) (store s) = Some (Have t)).
+  (forall k, In k (insts s') -> In k (insts s) \/ exists t, lookup (tk_tree k) (store s) = Some (Have t)) /\
+  (forall k, proto_known (tk_proto k) = true -> In k (finished s') -> In k (finished s) \/ p_fin X k).
 
 Lemma modify_returns : forall X f m,
-  frame_ok (os m) (f (os m)) ->
+  frame_ok X (os m) (f (os m)) ->
   returns X (modify f) m (fun _ m' => os m' = f (os m) /\ evs m' = evs m).
 Proof.
-  intros X f m (Hl & Hs & Hi). exists tt, (mkM (f (os m)) (held m) (evs m)).
+  intros X f m (Hl & Hs & Hi & Hf). exists tt, (mkM (f (os m)) (held m) (evs m)).
   split; [reflexivity|]. split; [|split; reflexivity].
   constructor; cbn [os held evs]; auto.
   - rewrite Hs. eauto.
   - rewrite Hs. auto.
-  - intros IH k Hk. rewrite Hs. destruct (Hi k Hk) as [H|H]; auto.
+  - intros (IH & IK). split.
+    + intros k Hk. rewrite Hs. destruct (Hi k Hk) as [H|H]; auto.
+    + unfold keys_ok. rewrite Hs. exact IK.
 Qed.
 
 Lemma emit_returns : forall X e m,
@@ -421,7 +425,7 @@ Lemma locked_returns : forall A X l (c : M A) m (Q : A -> mst -> Prop),
   returns X c (mkM (os m) (l :: held m) (evs m)) Q ->
   returns X (locked l c) m Q.
 Proof.
-  intros A X l c m Q C Hn HQ (a & m1 & E & [h lk v k i d e] & Hq).
+  intros A X l c m Q C Hn HQ (a & m1 & E & [h lk v k fi i d e] & Hq).
   cbn [os held evs] in *.
   exists a, (mkM (os m1) (held m) (evs m1)). split; [|split].
   - unfold locked, bind, acquire, release, ret. unfold clean in C. rewrite C, Hn. cbn [mem_lk existsb orb].
@@ -435,7 +439,7 @@ Lemma spawn_returns : forall X (c : M unit) m (Q : unit -> mst -> Prop),
   returns X c (mkM (os m) [] (evs m)) Q ->
   returns X (spawn c) m Q.
 Proof.
-  intros X c m Q HQ (a & m1 & E & [h lk v k i d e] & Hq). cbn [os held evs] in *.
+  intros X c m Q HQ (a & m1 & E & [h lk v k fi i d e] & Hq). cbn [os held evs] in *.
   exists tt, (mkM (os m1) (held m) (evs m1)). split; [|split].
   - unfold spawn. rewrite E. reflexivity.
   - constructor; cbn [os held evs]; auto.
@@ -522,16 +526,18 @@ Qed.
 
 Lemma node_delete_returns : forall k m,
   clean m -> mem_lk LStore (held m) = false -> mem_lk LInst (held m) = true ->
+  (p_fin X k \/ proto_known (tk_proto k) = false) ->
   returns X (node_delete k) m (fun _ m' => forall x, In x (insts (os m')) -> In x (insts (os m))).
 Proof.
-  intros k m C Hn Hi. unfold node_delete.
+  intros k m C Hn Hi Hperm. unfold node_delete.
   eapply bind_returns; [apply access_returns; exact Hi|]. intros [] m1 X1 Ho1.
   eapply bind_returns; [apply get_returns|]. intros s m2 X2 (-> & ->).
   destruct (mem_tok k (insts (os m1))).
   2:{ eapply returns_weaken; [apply ret_returns|]. intros a m' _ (_ & ->). rewrite Ho1. auto. }
   eapply bind_returns.
-  { apply modify_returns. repeat split; cbn [set_insts leaked store insts].
-    intros x Hx. left. eapply In_remove_tok, Hx. }
+  { apply modify_returns. repeat split; cbn [set_insts leaked store insts finished].
+    - intros x Hx. left. eapply In_remove_tok, Hx.
+    - intros x _ HF. left. exact HF. }
   intros [] m3 X3 (Ho3 & _).
   assert (C3 : clean m3) by (eapply clean_ext; [eapply clean_ext; eassumption|eassumption]).
   assert (H3 : held m3 = held m) by (rewrite (ext_held _ _ _ X3), (ext_held _ _ _ X1); reflexivity).
@@ -542,7 +548,8 @@ Proof.
   { apply access_returns. rewrite (ext_held _ _ _ X4), H3. exact Hi. }
   intros [] m5 X5 Ho5.
   eapply returns_weaken.
-  { apply modify_returns. repeat split; cbn [set_finished leaked store insts]. auto. }
+  { apply modify_returns. repeat split; cbn [set_finished leaked store insts finished]; auto.
+    intros x Hp [<-|HF]; [|left; exact HF]. destruct Hperm as [Hperm|Hperm]; [right; exact Hperm|congruence]. }
   intros a m' _ (Ho' & _) x Hx. rewrite Ho' in Hx. cbn [set_finished insts] in Hx.
   rewrite Ho5, Hi4, Ho3 in Hx. cbn [set_insts insts] in Hx. rewrite <- Ho1. eapply In_remove_tok, Hx.
 Qed.
@@ -595,8 +602,9 @@ Proof.
       [exact C1|rewrite H1; reflexivity|hf|].
     eapply bind_returns; [apply access_returns; reflexivity|]. intros [] m2 X2 Ho2.
     eapply returns_weaken.
-    { apply modify_returns. repeat split; cbn [set_insts leaked store insts os].
-      intros x [<-|Hx]; [right|left; exact Hx]. rewrite Ho2. cbn [os]. eauto. }
+    { apply modify_returns. repeat split; cbn [set_insts leaked store insts finished os].
+      - intros x [<-|Hx]; [right|left; exact Hx]. rewrite Ho2. cbn [os]. eauto.
+      - intros x _ HF. left. exact HF. }
     intros a m' _ (Ho' & _). rewrite Ho', Ho2. reflexivity. }
   intros [] m2 X2 Ho2.
   assert (C2 : clean m2) by (eapply clean_ext; eassumption).
@@ -606,7 +614,7 @@ Proof.
       [exact C2|rewrite H2; reflexivity|hf|].
     eapply bind_returns; [apply access_returns; reflexivity|]. intros [] m3 X3 Ho3.
     eapply returns_weaken.
-    { apply modify_returns. repeat split; cbn [set_configs leaked store insts os]. auto. }
+    { apply modify_returns. repeat split; cbn [set_configs leaked store insts finished os]; auto. all: try (intros ? _ HF; left; exact HF). }
     intros a m' _ (Ho' & _). rewrite Ho', Ho3. reflexivity. }
   intros [] m3 X3 Ho3.
   assert (C3 : clean m3) by (eapply clean_ext; eassumption).
@@ -707,7 +715,7 @@ Proof.
       [exact C|rewrite Hh; reflexivity|hf|].
     eapply bind_returns; [apply access_returns; reflexivity|]. intros [] m1 X1 Ho1.
     eapply returns_weaken.
-    { apply modify_returns. repeat split; cbn [set_parked leaked store insts]. auto. }
+    { apply modify_returns. repeat split; cbn [set_parked leaked store insts finished]; auto. all: try (intros ? _ HF; left; exact HF). }
     intros a m' _ (Ho' & _). rewrite Ho', Ho1. reflexivity. }
   intros [] m1 X1 Ho1.
   assert (C1 : clean m1) by (eapply clean_ext; eassumption).
@@ -818,7 +826,7 @@ Proof.
       [exact C|rewrite Hh; reflexivity|hf|].
     eapply bind_returns; [apply access_returns; reflexivity|]. intros [] m1 X1 Ho1.
     eapply returns_weaken.
-    { apply modify_returns. repeat split; cbn [set_parked leaked store insts]. auto. }
+    { apply modify_returns. repeat split; cbn [set_parked leaked store insts finished]; auto. all: try (intros ? _ HF; left; exact HF). }
     intros a m' _ (Ho' & _). rewrite Ho', Ho1. reflexivity. }
   intros [] m1 X1 Ho1.
   assert (C1 : clean m1) by (eapply clean_ext; eassumption).
@@ -916,7 +924,7 @@ Proof.
     eapply bind_returns; [apply access_returns; reflexivity|]. intros [] m1 X1 Ho1.
     eapply bind_returns; [apply get_returns|]. intros s m2 X2 (-> & ->).
     eapply bind_returns.
-    { apply modify_returns. repeat split; cbn [set_parked leaked store insts]. auto. }
+    { apply modify_returns. repeat split; cbn [set_parked leaked store insts finished]; auto. all: try (intros ? _ HF; left; exact HF). }
     intros [] m3 X3 (Ho3 & _).
     eapply returns_weaken; [apply ret_returns|]. intros a m' _ (-> & ->).
     rewrite Ho3, Ho1. cbn [os]. auto. }
@@ -1160,7 +1168,7 @@ Proof.
     apply locked_returns; [exact C3|rewrite H3; reflexivity|hf|].
     eapply bind_returns; [apply access_returns; reflexivity|]. intros [] m4 X4 Ho4.
     eapply returns_weaken.
-    { apply modify_returns. repeat split; cbn [set_ptm leaked store insts]. auto. }
+    { apply modify_returns. repeat split; cbn [set_ptm leaked store insts finished]; auto. all: try (intros ? _ HF; left; exact HF). }
     auto.
 Qed.
 
@@ -1210,7 +1218,7 @@ Proof.
     destruct (filter (fun tm => tm_roster tm =? ro_id ro) (ptm (os m1))) as [|tm0 rest] eqn:Ef.
     { eapply returns_weaken; [apply ret_returns|auto]. }
     eapply bind_returns.
-    { apply modify_returns. unfold consume. repeat split; cbn [set_ptm leaked store insts]. auto. }
+    { apply modify_returns. unfold consume. repeat split; cbn [set_ptm leaked store insts finished]; auto. all: try (intros ? _ HF; left; exact HF). }
     intros [] m3 X3 _.
     eapply returns_weaken.
     { apply miter_returns_in with (P := fun m => clean m /\ held m = [LPTree] /\ insts_have (os m)).
@@ -1234,7 +1242,7 @@ Proof.
       2:{ exfalso. apply H8. unfold access in Eacc. inversion Eacc; subst ma. exact Ef. }
       rewrite H8. unfold release. rewrite (ext_held _ _ _ X1). reflexivity.
     + unfold modify in E1 |- *. fold consume. rewrite E1. unfold release. rewrite (ext_held _ _ _ X1). reflexivity.
-  - destruct X1 as [h l v k i d e]. constructor; cbn [os held evs] in *; auto.
+  - destruct X1 as [h l v k fi i d e]. constructor; cbn [os held evs] in *; auto.
 Qed.
 
 Lemma handle_config_returns : forall dest m,
@@ -1244,7 +1252,7 @@ Proof.
   apply locked_returns; [exact C|rewrite Hh; reflexivity|hf|].
   eapply bind_returns; [apply access_returns; reflexivity|]. intros [] m1 X1 Ho1.
   eapply returns_weaken.
-  { apply modify_returns. destruct dest; repeat split; cbn [set_configs leaked store insts]; auto. }
+  { apply modify_returns. destruct dest; repeat split; cbn [set_configs leaked store insts finished]; auto. all: try (intros ? _ HF; left; exact HF). }
   auto.
 Qed.
 
